@@ -462,7 +462,14 @@ def native_case(sc, Nn, nn_, nan_, st, seed=0):
             eP, eQ = PS.n_expected(pos0, q0, "move", sc["scalar"], 1 if sc["scalar"] else nn_, stv, disp=disp)
         elif sc["op"] == "rotate":
             rot = R.from_rotvec(rng.normal(size=3)) if sc["rot"] == "s" else R.from_rotvec(rng.normal(size=(nn_, 3)))
-            anc = {"none": None, "zero": 0, "s": rng.normal(size=3), "v": rng.normal(size=(nan_, 3))}[sc["anchor"]]
+            if sc.get("tiny"):
+                # nanometre-sized numbers: positions within 1e-8 of the anchor must still be rotated about it
+                s._position = s._position * 1e-9
+                pos0 = s._position.copy()
+            anc = {"none": None, "zero": 0, "s": rng.normal(size=3) * (1e-9 if sc.get("tiny") else 1), "v": rng.normal(size=(nan_, 3)),
+                   "self": None}[sc["anchor"]]
+            if sc["anchor"] == "self":
+                anc = s.position  # the object's own position (a view of its path array): rotating about itself must leave the position alone
             parent = rng.normal(size=(Nn, 3)) if sc.get("parent") else None
             scalar = sc["rot"] == "s" and sc["anchor"] != "v"
             ln = 1 if scalar else max(nn_ if sc["rot"] == "v" else 0, nan_ if sc["anchor"] == "v" else 0)
@@ -473,6 +480,11 @@ def native_case(sc, Nn, nn_, nan_, st, seed=0):
             else:
                 s.rotate(rot, anchor=anc, start=stv)
             a = np.zeros(3) if sc["anchor"] == "zero" else anc
+            if sc["anchor"] == "self":
+                a = pos0.copy() if len(pos0) > 1 else pos0[0].copy()
+                if np.ndim(a) == 2:
+                    scalar = False
+                    ln = max(ln if sc["rot"] == "v" else 0, len(a))
             eP, eQ = PS.n_expected(pos0, q0, "rotate", scalar, ln, stv, rot=rot, anchor=a, parent=parent)
         elif sc["op"] == "setpos":
             X_ = rng.normal(size=3) if sc["scalar"] else rng.normal(size=(nn_, 3))
@@ -501,7 +513,7 @@ def native_case(sc, Nn, nn_, nan_, st, seed=0):
     P1, Q1 = s._position, s._orientation.as_quat()
     if P1.shape != eP.shape or len(Q1) != len(eQ) or len(P1) != len(Q1):
         return f"path lengths: got pos {P1.shape} ori {Q1.shape}, spec {eP.shape}"
-    if not np.allclose(P1, eP, rtol=1e-9, atol=1e-9):
+    if not np.allclose(P1, eP, rtol=1e-9, atol=1e-9 * (1e-9 if sc.get("tiny") else 1)):
         return f"position path differs from spec at rows {np.where(~np.isclose(P1, eP).all(axis=1))[0].tolist()}"
     if not PS.same_rot(Q1, eQ):
         return "orientation path differs from spec"
@@ -571,6 +583,11 @@ def standin(rep, tier):
         scs.append(dict(op="rotate", rot=rk, anchor=ak, auto=auto, parent=False))
     for rk, auto in itertools.product("sv", (True, False)):
         scs.append(dict(op="rotate", rot=rk, anchor="none", auto=auto, parent=True))
+    scs.append(dict(op="rotate", rot="s", anchor="self", auto=True, parent=False))   # anchor aliases the object's own path array
+    scs.append(dict(op="rotate", rot="v", anchor="self", auto=False, parent=False))
+    for ak in ("zero", "s"):
+        scs.append(dict(op="rotate", rot="s", anchor=ak, auto=True, parent=False, tiny=True))
+        scs.append(dict(op="rotate", rot="v", anchor=ak, auto=False, parent=False, tiny=True))
     scs += [dict(op="setpos", scalar=True), dict(op="setpos", scalar=False)]
     scs += [dict(op="setori", kind=kd) for kd in ("none", "single", "vector")]
     bound = 3 if tier == "quick" else 4
